@@ -269,6 +269,10 @@ class AsyncTask(futures.FutureBase):
             # task. We must attach the traceback as soon as possible
             if not hasattr(error, "_task"):
                 error._task = self
+                if hasattr(error, "_type_") and error.__traceback__ is not None:
+                    # The error was prepared for re-raising somewhere else before it was raised
+                    # in this task: the traceback stored there doesn't include this task's frames.
+                    error._traceback = error.__traceback__
                 core_errors.prepare_for_reraise(error)
             else:
                 # when we already have the _task on the error, it means that
